@@ -186,6 +186,14 @@ def gen_div_arith(rng, N):
             s["edges2"] = []
         if rng.random() < 0.3:
             s["B"] = list(s["A"])
+            if n and rng.random() < 0.6:
+                # near-equal: one entry differs, by amounts that collide under common hashing shortcuts
+                i = rng.randrange(n)
+                s["A"][i] = rng.choice([-1, -2, 0, 5, s["A"][i]])
+                s["B"] = list(s["A"])
+                s["B"][i] = s["A"][i] + rng.choice([1, -1, 2 ** 61 - 1, -(2 ** 61 - 1), 2 ** 64, 2 ** 32])
+                if s["A"][i] == -1 and rng.random() < 0.7:
+                    s["B"][i] = -2
         elif rng.random() < 0.15:
             s["B"] = [0] * n
         if rng.random() < 0.1:
